@@ -51,7 +51,7 @@ def clause_abc(ctx, P):
     # memory: every explicit reservation (with_capacity / reserve / vec![x; n] / resize / repeat) asks for a number of
     # elements bounded by data already held, not by a count read from the datagram
     nm_ = e3.emit_sites(ctx, P, A, "C01c.F1.allocation-bounded", sc | {hr.name}, classes=("M",))
-    ctx.floor("C01c.F1", nm_.get("M", 0), 2, "explicit reservations in the decoder scope (hex dump buffer, receive buffer)")
+    ctx.floor("C01c.F1", nm_.get("M", 0), 1, "explicit reservations in the decoder scope (the receive buffer; with logging also the hex dump buffers)")
     # completeness yardstick: every syntactic panic construct of a visited block is a recorded site
     missing = []
     total = 0
